@@ -1441,6 +1441,15 @@ uint32_t NifFile::CloneNamedNode(const std::string& nodeName, NifFile* srcNif) {
 	destNode->childRefs.Clear();
 	destNode->effectRefs.Clear();
 
+	if (srcNif != this) {
+		// Whatever else the node references (extra data, properties, ...) is a block index of the source file
+		std::set<NiRef*> refs;
+		destNode->GetChildRefs(refs);
+		destNode->GetPtrs(refs);
+		for (auto& r : refs)
+			r->Clear();
+	}
+
 	return hdr.AddBlock(std::move(destNode));
 }
 
@@ -4018,8 +4027,11 @@ void NifFile::DeleteShape(NiShape* shape) {
 	if (!shape)
 		return;
 
-	if (shape->HasData())
-		hdr.DeleteBlock(*shape->DataRef());
+	if (shape->HasData()) {
+		// The data block can be shared: other shapes keep a cached pointer to it
+		if (hdr.GetBlockRefCount(shape->DataRef()->index, false) == 1)
+			hdr.DeleteBlock(*shape->DataRef());
+	}
 
 	if (shape->HasShaderProperty()) {
 		if (hdr.GetBlockRefCount(shape->ShaderPropertyRef()->index, false) == 1)
